@@ -137,8 +137,9 @@ pub fn check_outputs(kind: MergeKind, model: &BTreeMap<Vec<u8>, Vec<Vec<u8>>>, o
             }
         } else {
             // lone key: calling merge with the single value or skipping the call are both right
-            if cs.len() > 1 || (cs.len() == 1 && &cs[0].values != vals) {
-                return Err(("merge-arguments-wrong".into(), format!("lone key {}: {} merge calls, arguments {:?}", hex(key), cs.len(), cs.first().map(|c| c.values.iter().map(|v| hex(v)).collect::<Vec<_>>()))));
+            // (the number of calls is not constrained; a call must be about that value)
+            if let Some(bad) = cs.iter().find(|c| &c.values != vals) {
+                return Err(("merge-arguments-wrong".into(), format!("lone key {}: merge called with {:?}", hex(key), bad.values.iter().map(|v| hex(v)).collect::<Vec<_>>())));
             }
             let ok = if kind.lone_preserving() { out_v == &vals[0] } else { out_v == &vals[0] || out_v == &kind.apply(key, vals) };
             if !ok {
